@@ -203,11 +203,17 @@ type preMsg struct {
 	txid  *model.Hash
 }
 
-func genPreMsg(t *rapid.T, i int, stage int) preMsg {
+func genPreMsg(t *rapid.T, i int, stage int, hsDone bool) preMsg {
 	kinds := []string{"headers", "headers", "addr", "inv", "inv", "tx", "block", "ext-tx", "ext-block", "ext-unknown", "getaddr", "ping", "protoconf", "version", "verack", "unknown", "pong", "reject"}
+	if stage < 2 && !hsDone {
+		// before the peer has sent what completes the handshake even the BSV split header must not verify the peer
+		kinds = append(kinds, "headers-bsv", "headers-bsv")
+	}
 	kind := rapid.SampledFrom(kinds).Draw(t, "msg")
 	m := preMsg{kind: kind}
 	switch kind {
+	case "headers-bsv":
+		m.frame = p2p.Headers([]model.RawHeader{bsvHeader()})
 	case "headers":
 		n := rapid.IntRange(1, 3).Draw(t, "nh")
 		var hs []model.RawHeader
@@ -255,7 +261,7 @@ func genPreMsg(t *rapid.T, i int, stage int) preMsg {
 	return m
 }
 
-const ruleC13 = "a real BitcoinNode (full or verify-only, with a TxManager whose processor is a recording spy) is run over loopback TCP against a scripted peer and stopped at a drawn stage BEFORE verification (S0 connected / S1 peer version sent / S2 handshake complete, verification pending); the peer then sends a drawn sequence (0..10) over {headers the repository WOULD accept, addr, inv, tx, block, extended tx/block/unknown, getaddr, ping, pong, protoconf, repeated version, early/duplicate verack, unknown, reject}; oracle: zero ProcessHeader calls, zero address-book Add/UpdateScore calls, the transaction manager still treats every announced/delivered txid as never seen (AddTxID from another peer id returns true) and the processor saw no transaction, and the peer received no getheaders besides the verification request and no getdata; non-vacuity: the same generators drive the positive control (TestRegr_C13_positive_control) where the messages sent AFTER verification do reach the spies; non-trivial = sequence containing at least two of {acceptable headers, addr, inv/tx}; distinct = (node kind, stage, message kind list)"
+const ruleC13 = "a real BitcoinNode (full or verify-only, with a TxManager whose processor is a recording spy) is run over loopback TCP against a scripted peer and stopped at a drawn stage BEFORE verification (S0 connected / S1 peer version sent / S2 handshake complete, verification pending); the peer then sends a drawn sequence (0..10) over {headers the repository WOULD accept, the BSV split header itself while the handshake is still incomplete, addr, inv, tx, block, extended tx/block/unknown, getaddr, ping, pong, protoconf, repeated version, early/duplicate verack, unknown, reject}; oracle: zero ProcessHeader calls, zero address-book Add/UpdateScore calls, the transaction manager still treats every announced/delivered txid as never seen (AddTxID from another peer id returns true) and the processor saw no transaction, and the peer received no getheaders besides the verification request and no getdata; non-vacuity: the same generators drive the positive control (TestRegr_C13_positive_control) where the messages sent AFTER verification do reach the spies; non-trivial = sequence containing at least two of {acceptable headers, addr, inv/tx}; distinct = (node kind, stage, message kind list)"
 
 func TestProp_C13_preverify(t *testing.T) {
 	col := evid.For("C13", "preverify", ruleC13)
@@ -290,7 +296,7 @@ func TestProp_C13_preverify(t *testing.T) {
 		var txids []model.Hash
 		versions := 0
 		for i := 0; i < n; i++ {
-			m := genPreMsg(t, i, stage)
+			m := genPreMsg(t, i, stage, handshakeCompletes(kinds, stage))
 			if m.kind == "version" || m.kind == "verack" {
 				versions++
 				if versions > 6 {
